@@ -23,12 +23,23 @@ Operations
   legacy <json>                                          -> legacyOf, as a JSON value
   node <json> / child <json>                             -> NodeSchema().load / ChildSchema().load: ok … | raw exception class
 
+  jrender <json>                                         -> hex bytes of `render 0 v` = json.dumps(v, indent=2) (members as given)
+  jdumps <json>                                          -> hex bytes of json.dumps(v, sort_keys=True, indent=2) (str keys)
+  savetext                                               -> hex bytes of the file `save` writes for the current registry
+  realok                                                 -> 1 / 0: RegOK, printable integers, canonical order (C15's RealOK)
+  jparse <hex bytes>                                     -> json.loads of the UTF-8 text: ok <json> | invalid | hugeInt |
+                                                            unsupported | undecodable
+  bload <hex bytes>                                      -> outcome of `load` of a file with these bytes into the current
+                                                            registry (as `file`, through the modelled decoder and parser);
+                                                            `unsupported` = outside the modelled text fragment
+
 Outcomes: `ok <registry>` (nodes in dict order, format of `Driver.lean`'s dump),
 `err persistenceRead <class raised inside>`, `foreign <class>`; `file` adds ` created=<json|->`.
 -/
 import AioMySensors.Model.Persist
+import AioMySensors.Model.JsonText
 
-open AioMySensors AioMySensors.Schema AioMySensors.Persist
+open AioMySensors AioMySensors.Schema AioMySensors.Persist AioMySensors.JsonText
 
 def hexVal (c : Char) : Option Nat :=
   if '0' ≤ c ∧ c ≤ '9' then some (c.toNat - 48)
@@ -154,6 +165,46 @@ def parseFileState : String → Option FileState
   | "notJson" => some .notJson | "hugeInt" => some .hugeInt | "tooDeep" => some .tooDeep
   | "empty" => some .empty | _ => none
 
+/-! Bytes as one hexadecimal string (two digits per byte, `-` = empty) -/
+
+def hexByte (b : UInt8) : String :=
+  let d (n : Nat) : Char := if n < 10 then Char.ofNat (48 + n) else Char.ofNat (87 + n)
+  String.ofList [d (b.toNat / 16), d (b.toNat % 16)]
+
+def showBytes (b : List UInt8) : String :=
+  if b.isEmpty then "-" else String.join (b.map hexByte)
+
+def parseBytesAux : List Char → List UInt8 → Option (List UInt8)
+  | [], acc => some acc.reverse
+  | [_], _ => none
+  | a :: b :: rest, acc =>
+    match hexVal a, hexVal b with
+    | some x, some y => parseBytesAux rest (UInt8.ofNat (x * 16 + y) :: acc)
+    | _, _ => none
+
+def parseBytes (tok : String) : Option (List UInt8) :=
+  if tok = "-" then some [] else parseBytesAux tok.toList []
+
+def showParse (b : List UInt8) : String :=
+  match decodeUtf8 b with
+  | none => "undecodable"
+  | some text =>
+    match parse text with
+    | .ok j => "ok " ++ showJson j
+    | .error .invalid => "invalid"
+    | .error .hugeInt => "hugeInt"
+    | .error .unsupported => "unsupported"
+
+def showBytesLoad (cur : PDict Int Node) (b : List UInt8) : String :=
+  match classify b with
+  | none => "unsupported"
+  | some (.value j) => showLoad cur j
+  | some fs => showFile cur fs
+
+/-- Executable form of `C15.RealOK`. -/
+def realOK (r : PDict Int Node) : Bool := regOK r && regIntsOK r && decide (canonReg r = r) &&
+  r.all fun kn => !kn.2.reboot
+
 abbrev DState := PDict Int Node
 
 def step (reg : DState) (line : String) : DState × String :=
@@ -197,6 +248,24 @@ def step (reg : DState) (line : String) : DState × String :=
   | "legacy" :: toks =>
     match parseWholeJson toks with
     | some j => (reg, showJson (legacyOf j))
+    | none => (reg, "bad-op")
+  | "jrender" :: toks =>
+    match parseWholeJson toks with
+    | some j => (reg, showBytes (encodeUtf8 (render 0 j)))
+    | none => (reg, "bad-op")
+  | "jdumps" :: toks =>
+    match parseWholeJson toks with
+    | some j => (reg, showBytes (encodeUtf8 (dumpsSorted j)))
+    | none => (reg, "bad-op")
+  | ["savetext"] => (reg, showBytes (saveBytes reg))
+  | ["realok"] => (reg, showBool (realOK reg))
+  | ["jparse", tok] =>
+    match parseBytes tok with
+    | some b => (reg, showParse b)
+    | none => (reg, "bad-op")
+  | ["bload", tok] =>
+    match parseBytes tok with
+    | some b => (reg, showBytesLoad reg b)
     | none => (reg, "bad-op")
   | "node" :: toks =>
     match parseWholeJson toks with
